@@ -12,7 +12,9 @@ type CallFrame struct {
 	module      *Module
 	callType    uint8
 	currentLine int // current exec line in the module's source code
-	programAST  *syntax.Program
+	// lineSet is false until the first statement executed in this frame has set its line
+	lineSet    bool
+	programAST *syntax.Program
 	// for SCRIPT callFrame, thisValue = nil
 	// for FUCTION callFrame, thisValues depends on the function
 	// 	 - for method function, thisValue = [Object Instance]
@@ -61,6 +63,13 @@ func (cf *CallFrame) GetCurrentLine() int {
 
 func (cf *CallFrame) SetCurrentLine(line int) {
 	cf.currentLine = line
+	cf.lineSet = true
+}
+
+// HasStarted - whether any statement has begun executing in this frame
+// (a call may fail before that: wrong number of arguments, not a method)
+func (cf *CallFrame) HasStarted() bool {
+	return cf.lineSet
 }
 
 func (cf *CallFrame) GetSourceTextLine(line int) string {
